@@ -203,7 +203,7 @@ def run(ctx, rep, model=True):
         for L in range(nlev):
             combos.append((["density", "one"][L % 2], L % 2 == 1, L))
         for j, (f, vf, lim) in enumerate(combos):
-            run_case(ctx, rep, spec, f, vf, lim, model, path, truth, cli=(j == 1 and i % 2 == 0),
+            run_case(ctx, rep, spec, f, vf, lim, model, path, truth, cli=(j in (1, 3, 4) and i % 2 == 0),
                      start=[None, pools.order_reversed][j % 2])
         if nlev >= 2 and i % 2 == 0:
             # one reader object for a sequence of calls with different limits and fields
